@@ -12,6 +12,7 @@ import (
 	"github.com/LiskHQ/lisk-engine/pkg/consensus/certificate"
 	"github.com/LiskHQ/lisk-engine/pkg/labi"
 
+	"verifharness/blsref"
 	"verifharness/corr"
 	"verifharness/node"
 )
@@ -206,7 +207,8 @@ func orDash(s string) string {
 }
 
 // acSigValid evaluates the aggregate BLS certificate of the header's aggregate commit against the
-// chain's block at that height and the BFT parameters of that height (keys ascending).
+// chain's block at that height and the BFT parameters of that height (keys ascending): bitmap length,
+// true weight of the flagged validators >= certificate threshold, aggregate valid for exactly them.
 func acSigValid(n *node.Node, ac *blockchain.AggregateCommit) (ok bool) {
 	defer func() {
 		if recover() != nil {
@@ -238,10 +240,16 @@ func acSigValid(n *node.Node, ac *blockchain.AggregateCommit) (ok bool) {
 	for i, x := range kws {
 		keys[i], weights[i] = x.k, x.w
 	}
-	c := certificate.NewCertificateFromBlock(h)
-	c.AggregationBits = ac.AggregationBits
-	c.Signature = ac.CertificateSignature
-	return c.VerifyAggregateCertificateSignature(keys, weights, params.CertificateThreshold(), n.Cfg.ChainID)
+	// The verdict is NOT taken from pkg/crypto (BLSVerifyWeightedAggSig is part of the acceptance path
+	// under test): harness/blsref reads the bitmap itself, sums the TRUE weight of the flagged positions
+	// in math/big, compares it with the certificate threshold and calls blst directly on exactly the
+	// flagged keys. Only the certificate's signing bytes (codec) come from the repository.
+	return blsref.Weighted(keys, ac.AggregationBits, ac.CertificateSignature, weights, params.CertificateThreshold(), certificateMessage(n, h)).Accept
+}
+
+// certificateMessage is the message validators sign for the block: H("LSK_CE_" || chainID || certificate bytes).
+func certificateMessage(n *node.Node, h *blockchain.BlockHeader) []byte {
+	return sha([]byte("LSK_CE_"), n.Cfg.ChainID, certificate.NewCertificateFromBlock(h).SigningBytes())
 }
 
 // facts renders the 27 fact tokens of a candidate built on the current tip of w.n. injectInit
